@@ -94,7 +94,12 @@ func runC08(c *eng.Ctx) {
 		eq := facts.Find(fs, "eq", eng.DescIs("replicaIdx"), isNext)
 		c.Check(len(eq) > 0, "append-only-at-next-index", put.Instr, f, "the follower appends a message only when its index equals the follower's own next index (no holes, no overwrite)", "facts: "+strings.Join(facts.Render(fs), " ; "))
 		c.Check(p.Desc(eng.CallArgs(put.Instr.(*ssa.Call))[0]) == "msg", "appends-the-message", put.Instr, f, "the appended bytes are the received record", "")
-		// classify every return
+		// classify every return: the request's index can only come back after a successful append
+		mismatch := eng.EdgesWithFact(f, func(ft eng.Fact) bool {
+			return ft.Op == "ne" && ft.Y != nil && (p.Desc(ft.X) == "replicaIdx" && isNext(p.Desc(ft.Y), ft.Y) || p.Desc(ft.Y) == "replicaIdx" && isNext(p.Desc(ft.X), ft.X))
+		})
+		putOK, _ := eng.ErrCheckEdges(f, put.Instr.(ssa.Value))
+		c.Check(len(mismatch) > 0 && len(putOK) > 0, "branches", put.Instr, f, "ReplicaLog branches on index mismatch and on the result of Put", fmt.Sprintf("%d mismatch edges, %d put-ok edges", len(mismatch), len(putOK)))
 		n := 0
 		for _, b := range f.Blocks {
 			if b == f.Recover {
@@ -107,23 +112,20 @@ func runC08(c *eng.Ctx) {
 				}
 				n++
 				v := eng.RetVal(r, 0)
-				rfs := facts.At(r)
-				kind := ""
-				switch {
-				case func() bool { k, ok := eng.ConstInt(v); return ok && k < 0 }():
-					kind = "negative-constant"
-				case isNext(p.Desc(v), v) && len(facts.Find(rfs, "ne", eng.DescIs("replicaIdx"), isNext)) > 0:
-					kind = "own-next-index-under-mismatch"
-				case isNext(p.Desc(v), v) && func() bool { ok, _ := eng.OkDominates(f, put.Instr, r); return ok }():
-					kind = "appended-index-after-successful-put"
+				if k, isC := eng.ConstInt(v); isC && k < 0 {
+					c.Check(true, fmt.Sprintf("return[%d]", n), r, f, "a failing return yields a negative constant (can not equal a request's index)", "")
+					continue
 				}
-				c.Check(kind != "", fmt.Sprintf("return[%d]", n), r, f,
-					"a return of ReplicaLog yields the request's index only after a successful append; otherwise a value that can not equal it (own next index under the mismatch fact, or a negative constant)",
-					"returns "+p.Desc(v)+" with facts "+strings.Join(facts.Render(rfs), " ; "))
+				// own next index: reachable only through the mismatch outcome or through a successful Put
+				_, sneaks := eng.PathExists(eng.PathQuery{Fn: f, Target: func(x ssa.Instruction) bool { return x == in },
+					Edge: eng.ForbidEdges(append(append([]eng.Edge{}, mismatch...), putOK...))})
+				c.Check(isNext(p.Desc(v), v) && !sneaks, fmt.Sprintf("return[%d]", n), r, f,
+					"a return of ReplicaLog yields the follower's own next index, and is reached only under an index mismatch (then it differs from the request's) or after a successful append (then it is the appended index)",
+					fmt.Sprintf("returns %s; reachable without mismatch and without a successful Put: %v", p.Desc(v), sneaks))
 			}
 		}
-		if n < 4 {
-			c.Undecided("ReplicaLog has %d returns, expected >= 4", n)
+		if n < 3 {
+			c.Undecided("ReplicaLog has %d returns, expected >= 3", n)
 		}
 	})
 	c.Rule("PROV", rhT+".Replica{echo}", func() {
@@ -134,7 +136,11 @@ func runC08(c *eng.Ctx) {
 		pb := "proto/gen/v1/replica.ReplicaResponse."
 		for _, s := range c.Some(f, eng.StoreField(pb+"ReplicaIndex"), "resp.ReplicaIndex =") {
 			v, _ := storedValue(s.Instr)
-			c.Check(strings.HasSuffix(p.Desc(v), ".ReplicaIndex") && strings.Contains(p.Desc(v), "Recv"), "echo-request-index", s.Instr, f, "the response echoes the request's index", "stores "+p.Desc(v))
+			fromRecv := eng.DependsOn(v, func(x ssa.Value) bool {
+				cl, ok := x.(*ssa.Call)
+				return ok && cl.Common().IsInvoke() && cl.Common().Method.Name() == "Recv"
+			})
+			c.Check(strings.HasSuffix(p.Desc(v), ".ReplicaIndex") && fromRecv, "echo-request-index", s.Instr, f, "the response echoes the index of the request just received", "stores "+p.Desc(v))
 		}
 		for _, s := range c.Some(f, eng.StoreField(pb+"AckIndex"), "resp.AckIndex =") {
 			v, _ := storedValue(s.Instr)
